@@ -87,7 +87,10 @@ func (commander *Commander) exec(ctx context.Context, parameters Parameters, scr
 			if err := commander.referencer.take(referenceTxReference, script.Reference); err != nil {
 				return nil, nil, NewErrConflict()
 			}
-			defer commander.referencer.release(referenceTxReference, script.Reference)
+			// the reference stays reserved until the transaction is visible in the store
+			executionContext.keepUntilTerminated(func() {
+				commander.referencer.release(referenceTxReference, script.Reference)
+			})
 
 			verifhook.Yield(ctx, "ref-lookup")
 			_, err := commander.store.GetTransactionByReference(ctx, script.Reference)
@@ -127,7 +130,10 @@ func (commander *Commander) exec(ctx context.Context, parameters Parameters, scr
 		if err != nil {
 			return nil, nil, errors.Wrap(err, "locking accounts for tx processing")
 		}
-		unlock(ctx)
+		// the accounts stay locked until the log is persisted: balances are read from the store
+		executionContext.keepUntilTerminated(func() {
+			unlock(ctx)
+		})
 
 		verifhook.Yield(ctx, "read-balances")
 		err = m.ResolveBalances(ctx, commander.store)
